@@ -296,6 +296,7 @@ func c14Scenario(r *vkit.Run, in c14Input) {
 	}
 	outcomes := map[string]bool{}
 	st := vsched.Explore(bound, 0, func(c *vsched.Ctx) {
+		r.BeginChoices("C14", in, c.Prefix())
 		obs := c14Exec(c, in)
 		r.Eval()
 		outcomes[obs.Result+"#"+fmt.Sprint(obs.Err != "")] = true
